@@ -37,47 +37,78 @@ func gen(tier string, rng *h.Rng, emit func(string)) {
 	// directed: an error in flight when the deadline fires (every fan-in), more errors than the
 	// buffer holds, cancellation before / between / after the inputs
 	for _, f := range fanins {
-		emit(faninLine(f, "sc", "c", "all", "f0,f1,r", 6))
-		emit(faninLine(f, "sssc", "c", "-", "f0,f1,x,r", 10))
-		emit(faninLine(f, "sc", "sc", "ctx", "f0,f1,x,r", 10))
-		emit(faninLine(f, "ssssc", "sc", "-", "f0,f1,x,r", 10))
-		emit(faninLine(f, "c", "c", "-", "x,f0,f1,r", 6))
+		emit(faninLine(f, "sc", "c", "all", "f0,f1,r", 3))
+		emit(faninLine(f, "sssc", "c", "-", "f0,f1,x,r", 4))
+		emit(faninLine(f, "sc", "sc", "ctx", "f0,f1,x,r", 5))
+		emit(faninLine(f, "ssssc", "sc", "-", "f0,f1,x,r", 4))
+		emit(faninLine(f, "c", "c", "-", "x,f0,f1,r", 3))
 	}
-	n := 4
+	n := 3
 	if tier == "thorough" {
-		n = 40
+		n = 14
 	}
 	for _, f := range fanins {
 		for i := 0; i < n; i++ {
-			emit(faninLine(f, progs[rng.Intn(len(progs))], progs[rng.Intn(len(progs))], conss[rng.Intn(len(conss))], ctls[rng.Intn(len(ctls))], 8))
+			emit(faninLine(f, progs[rng.Intn(len(progs))], progs[rng.Intn(len(progs))], conss[rng.Intn(len(conss))], ctls[rng.Intn(len(ctls))], 4))
 		}
 	}
 	// dispatchSign + queryLoop: submitter / member, share buffered before the registration,
 	// context already expired when the stage starts (F15), expiring at each quiet point
-	emit(dispatchLine("sc", "sc", "s", "ctx", "f2,f0,f1,go,r", 1, false, 8))
-	emit(dispatchLine("sc", "sc", "-", "ctx", "f0,f1,go,r", 0, false, 8))
-	emit(dispatchLine("sc", "sc", "s", "ctx", "f2,f0,f1,x,go,r", 1, false, 200))
-	emit(dispatchLine("sc", "sc", "s", "ctx", "f2,f0,f1,go,x,r", 1, false, 60))
-	emit(dispatchLine("c", "sc", "-", "ctx", "f0,f1,go,r", 1, false, 8))
-	emit(dispatchLine("sc", "c", "-", "ctx", "f0,f1,go,x,r", 1, false, 60))
+	emit(dispatchLine("sc", "sc", "s", "ctx", "f2,f0,f1,go,r", 1, false, 4))
+	emit(dispatchLine("sc", "sc", "-", "ctx", "f0,f1,go,r", 0, false, 4))
+	emit(dispatchLine("sc", "sc", "s", "ctx", "f2,f0,f1,x,go,r", 1, false, 60))
+	emit(dispatchLine("sc", "sc", "s", "ctx", "f2,f0,f1,go,x,r", 1, false, 30))
+	emit(dispatchLine("c", "sc", "-", "ctx", "f0,f1,go,r", 1, false, 4))
+	emit(dispatchLine("sc", "c", "-", "ctx", "f0,f1,go,x,r", 1, false, 30))
+	// single stages of the query pipeline, cancellation at every quiet point
+	stageLines := []string{
+		"sc p=query.sys keep=dosnode.choseSubmitter feed=- cons=dosnode.choseSubmitter.outs#0:all;dosnode.choseSubmitter.outs#1:all;dosnode.choseSubmitter.errc:all ctl=%s obs=dosnode.choseSubmitter.outs#0;dosnode.choseSubmitter.outs#1;dosnode.choseSubmitter.errc reps=3",
+		"sc p=query.sys keep=dosnode.choseSubmitter feed=- cons=dosnode.choseSubmitter.errc:ctx ctl=%s obs=dosnode.choseSubmitter.outs#0;dosnode.choseSubmitter.outs#1;dosnode.choseSubmitter.errc reps=3",
+		"sc p=query.sys keep=dosnode.genSysRandom feed=dosnode.choseSubmitter.outs#0:sc cons=dosnode.genSysRandom.out:ctx ctl=%s obs=dosnode.genSysRandom.out reps=4",
+		"sc p=query.sys keep=dosnode.genSysRandom feed=dosnode.choseSubmitter.outs#0:c cons=- ctl=%s obs=dosnode.genSysRandom.out reps=4",
+		"sc p=query.sys keep=dosnode.genSysRandom feed=dosnode.choseSubmitter.outs#0:sc cons=- ctl=%s obs=dosnode.genSysRandom.out reps=4",
+		"sc p=query.sys keep=dosnode.reportQueryResult feed=dosnode.recoverSign.out:sc cons=dosnode.reportQueryResult.errc:ctx ctl=%s pick=if_err_!=_nil:1 obs=dosnode.reportQueryResult.errc reps=4",
+		"sc p=query.sys keep=dosnode.reportQueryResult feed=dosnode.recoverSign.out:sc cons=- ctl=%s pick=if_err_!=_nil:0 obs=dosnode.reportQueryResult.errc reps=4",
+		"sc p=query.sys keep=dosnode.reportQueryResult feed=dosnode.recoverSign.out:c cons=dosnode.reportQueryResult.errc:all ctl=%s obs=dosnode.reportQueryResult.errc reps=4",
+		"sc p=query.sys keep=dosnode.recoverSign feed=dosnode.dispatchSign.out:ssc cons=dosnode.recoverSign.errc:n1 ctl=%s pick=if_sign_==_nil:0 obs=dosnode.recoverSign.out;dosnode.recoverSign.errc reps=4",
+		"sc p=query.url keep=dosnode.genQueryResult feed=dosnode.choseSubmitter.outs#0:sc cons=- ctl=%s pick=if_err_!=_nil:0 obs=dosnode.genQueryResult.out;dosnode.genQueryResult.errc reps=3",
+		"sc p=grouping keep=dkg.genPub feed=- cons=dkg.genPub.errc:ctx;dkg.genPub.out:ctx ctl=%s pick=if_index_==_-1:0 obs=dkg.genPub.out;dkg.genPub.secrc;dkg.genPub.errc reps=3",
+	}
+	sctl := []string{"go,f0,x,r", "go,x,f0,r", "x,go,f0,r", "f0,go,x,r", "go,f0,r"}
+	for _, l := range stageLines {
+		n := 2
+		if tier == "thorough" {
+			n = len(sctl)
+		}
+		for i := 0; i < n; i++ {
+			c := sctl[rng.Intn(len(sctl))]
+			if tier == "thorough" {
+				c = sctl[i]
+			}
+			if !strings.Contains(l, "feed=dosnode") {
+				c = strings.ReplaceAll(strings.ReplaceAll(c, "f0,", ""), ",f0", "")
+			}
+			emit(fmt.Sprintf(l, c))
+		}
+	}
 	// full pipelines through their real entry points
-	emit("full p=grouping n=3 fault=none cancel=never reps=2")
-	emit("full p=query.sys role=submitter bt=1 peers=1 reps=3")
-	emit("full p=query.sys role=member bt=1 peers=0 reps=3")
-	emit("full p=query.sys role=submitter bt=0 peers=1 reps=20")
-	emit("full p=query.user role=submitter bt=1 peers=2 reps=3")
-	emit("full p=query.user role=member bt=0 peers=1 reps=10")
+	emit("full p=grouping n=3 fault=none cancel=never reps=1")
+	emit("full p=query.sys role=submitter bt=1 peers=1 reps=2")
+	emit("full p=query.sys role=member bt=1 peers=0 reps=2")
+	emit("full p=query.sys role=submitter bt=0 peers=1 reps=10")
+	emit("full p=query.user role=submitter bt=1 peers=2 reps=2")
+	emit("full p=query.user role=member bt=0 peers=1 reps=6")
 	faults := []string{"none", "silent:2", "silent:0", "dropdeal:1", "dropresp:2", "loseack:0"}
 	k := 4
 	if tier == "thorough" {
-		k = 40
+		k = 16
 	}
 	for i := 0; i < k; i++ {
-		emit(fmt.Sprintf("full p=grouping n=3 fault=%s cancel=ev%d reps=2", faults[rng.Intn(len(faults))], 1+rng.Intn(30)))
+		emit(fmt.Sprintf("full p=grouping n=3 fault=%s cancel=ev%d reps=1", faults[rng.Intn(len(faults))], 1+rng.Intn(30)))
 	}
 	if tier == "thorough" {
 		for ev := 1; ev <= 24; ev++ {
-			emit(fmt.Sprintf("full p=grouping n=3 fault=none cancel=ev%d reps=2", ev))
+			emit(fmt.Sprintf("full p=grouping n=3 fault=none cancel=ev%d reps=1", ev))
 		}
 		for _, f := range faults[1:] {
 			emit(fmt.Sprintf("full p=grouping n=3 fault=%s cancel=never reps=1", f))
@@ -86,13 +117,13 @@ func gen(tier string, rng *h.Rng, emit func(string)) {
 	dctl := []string{"f2,f0,f1,go,r", "f0,f1,go,f2,r", "f0,go,x,f1,r", "f2,f0,go,f1,x,r", "f0,f1,x,go,f2,r", "go,f0,x,f1,f2,r"}
 	m := 4
 	if tier == "thorough" {
-		m = 30
+		m = 16
 	}
 	for i := 0; i < m; i++ {
 		ctl := dctl[rng.Intn(len(dctl))]
-		reps := 20
+		reps := 8
 		if strings.Contains(ctl, "x") {
-			reps = 80
+			reps = 40
 		}
 		emit(dispatchLine([]string{"sc", "c", "s"}[rng.Intn(3)], []string{"sc", "c", "s"}[rng.Intn(3)], []string{"-", "s", "ss"}[rng.Intn(3)],
 			[]string{"ctx", "all", "n1"}[rng.Intn(3)], ctl, rng.Intn(2), false, reps))
